@@ -45,6 +45,10 @@ TRun ==
           \* C09
           \cup When(e.inputsUnchanged, "C09_InputsUntouched")
           \cup When(e.bomSame, "C09_ByteOrderMark")          \* as many byte-order marks at the start of the output as of the input
+          \* every comment of the input is in the output and none is new - counted on the raw token stream.  Comments lost from
+          \* between a property name and its colon / inside "!important" of a rule the tool re-serialises are finding F12
+          \* (e.commentsLostKnown, announced below); any other lost comment, and any added one, is a violation
+          \cup When(e.skipped \/ ~e.outputExists \/ (e.commentsLostOther = 0 /\ e.commentsGained = 0), "C09_CommentsKept")
           \cup When(ToSet(e.newFiles) \subseteq ToSet(e.allowedNew), "C09_OnlyDocumentedFiles")
           \cup When(e.skipped \/ e.outputExists, "C09_OutputWritten")
           \cup When(e.skipped \/ ~e.outputExists \/ e.outParses, "C09_OutputIsValidCss")
@@ -54,7 +58,8 @@ TRun ==
           \cup When(e.skipped \/ e.counts.tuned = e.ncards, "C08_AdjustedCountIsCards")
           \cup When(e.skipped \/ e.counts.failed = e.nlisted, "C08_AttentionCountIsListed")
           \cup When(e.skipped \/ e.counts.accessible + e.counts.tuned + e.counts.failed = e.nColoured, "C08_EveryRuleCountedOnce")
-  /\ i' = i + 1 /\ UNCHANGED <<tid, nRest, nCard, nFailed, incon, known>>
+     /\ incon' = incon \cup (IF ~e.skipped /\ e.outputExists /\ e.commentsLostKnown > 0 THEN {"K_F12"} ELSE {})
+  /\ i' = i + 1 /\ UNCHANGED <<tid, nRest, nCard, nFailed, known>>
 
 TRule ==
   /\ Ev.e = "rule" /\ run.started
